@@ -105,4 +105,10 @@ def MembersOf (cfg : Cfg) (cands : List Cand) (s : SR) (members : List Member) :
   (s.frm ≠ "" ∧ s.nested = [] ∧ members = (groupMembers cands s.frm).map fromMember) ∨
   (s.frm = "" ∧ s.nested ≠ [] ∧ SR.nestedMembers cfg cands s.nested = .ok members)
 
+/-- every requirement of the list succeeds on the candidates, with these selections -/
+def SelectedBy (cfg : Cfg) (cands : List Cand) : List SR → List (List Cred) → Prop
+  | [], [] => True
+  | s :: ss, l :: ls => SR.matchSR cfg cands s = .ok l ∧ SelectedBy cfg cands ss ls
+  | _, _ => False
+
 end Nuts.C12
